@@ -25,6 +25,8 @@ def main():
     tier = sys.argv[sys.argv.index("--tier") + 1] if "--tier" in sys.argv else "quick"
     extra = sys.argv[sys.argv.index("--extra") + 1].split(",") if "--extra" in sys.argv else []
     only = sys.argv[sys.argv.index("--only") + 1] if "--only" in sys.argv else None
+    rnd = int(sys.argv[sys.argv.index("--round") + 1]) if "--round" in sys.argv else 1
+    label = {"A": "A", "B": "B"} if rnd == 1 else {"A": "CDEFGH"[2 * (rnd - 2)], "B": "CDEFGH"[2 * (rnd - 2) + 1]}
     src = f"/tmp/seed/{prop}/_out"
     scratch = tempfile.mkdtemp(prefix="hiveseed_", dir="/tmp")
     wt = os.path.join(scratch, "wt")
@@ -56,7 +58,7 @@ def main():
                 res[p] = {"exit": c.returncode, "tier": tier, "mechanisms": mechs[:8], "wall_s": round(time.time() - t0, 1)}
             ok = "273 passed" in suite and clean.returncode == 0 and mutd.returncode != 0
             meta = {
-                "id": f"{prop}-{x}",
+                "id": f"{prop}-{label[x]}",
                 "property": prop,
                 "source": "independent sub-agent that saw only the property text and its own scratch worktree",
                 "diffstat": stat,
@@ -65,7 +67,7 @@ def main():
                 "checks": res,
                 "caught_by": [p for p, r in res.items() if r["exit"] == 1],
             }
-            out = os.path.join(VERIF, "seeded", f"{prop}-{x}")
+            out = os.path.join(VERIF, "seeded", f"{prop}-{label[x]}")
             os.makedirs(out, exist_ok=True)
             shutil.copy(patch, os.path.join(out, "patch.diff"))
             shutil.copy(demo, os.path.join(out, "demo.py"))
@@ -81,7 +83,7 @@ def main():
             print(json.dumps({"id": meta["id"], "valid": ok, "suite": suite[:40], "demo": [clean.returncode, mutd.returncode], "checks": {p: (r["exit"], r["mechanisms"][:3]) for p, r in res.items()}}))
         if os.path.exists(f"{src}/notes.md"):
             for x in ("A", "B"):
-                out = os.path.join(VERIF, "seeded", f"{prop}-{x}")
+                out = os.path.join(VERIF, "seeded", f"{prop}-{label[x]}")
                 if os.path.isdir(out):
                     shutil.copy(f"{src}/notes.md", os.path.join(out, "notes.md"))
     finally:
